@@ -93,12 +93,13 @@ def pop_term(op):
 
 DELIMS = [' ', ' ', ' \t', ',', ', ', ';', ': ', ' =']
 INT_TOK = ['0', '7', '-3', '+12', '1000000', '-0', '007', '123456789012345678901234567890']
-FLT_TOK = ['1.5', '-2.', '.5', '3e5', '1.0E+03', '2.5D-3', '6.02e23', '-0.0', '1.e5', '+.25', '12.75d2', '1E-7']
+FLT_TOK = ['1.5', '-2.', '.5', '3e5', '1.0E+03', '2.5D-3', '6.02e23', '-0.0', '1.e5', '+.25', '12.75d2', '1E-7', '4e-12']
 SPC_TOK = ['NaN', 'nan', 'Inf', '-Inf', 'NaNQ', '1.#QNAN']
 WORDS = ['alpha', 'x1', 'Beta_2', 'zeta', 'w', 'Hello', 'k9', 'end', 'e5', 'D2', 'b_c_d']
 ANCHORS = ['SectionA', 'BLOCK', 'Marker7']
 JUNK = ['12abc', '1.5.3', 'x=3', 'nano', '1e', '--5', '+.5e3', 'Information', 'NaNQx', '1e+', '.', '-', '+x', '3.x',
-        'a-b', '(1)', '1,2', 'q;r', 'a:b', 'e=mc2', '5.', '1.#SNAN', '-1.#IND', 'inf', '-inf', 'INF', 'sNaN', '0x1F', '1_000']
+        'a-b', '(1)', '1,2', 'q;r', 'a:b', 'e=mc2', '5.', '1.#SNAN', '-1.#IND', 'inf', '-inf', 'INF', 'sNaN', '0x1F', '1_000',
+        '-2e-05', '+3e5', '-3E5', '-1E+3', '-4d-2', '-e5', '-2e', '2e-', '-2e-x']
 
 
 def F(x):
@@ -108,7 +109,10 @@ def F(x):
 INTS = [{'i': v} for v in (0, 1, -1, 42, -17, 100000, 2 ** 31, -2 ** 63, 10 ** 20, 7)]
 FLOATS = [F(v) for v in (0.0, -0.0, 1.0, 2.0, -3.0, 1e16, 1e22, 123456789.0, 0.5, 0.1, -0.1, 1 / 3, 2 / 3, 1e-7, 3.14159,
                          123456.789, 5e-324, 1.7976931348623157e308, 2.2250738585072014e-308, 1e15 + 0.5,
-                         4503599627370495.5, 0.30000000000000004, 1e-300, 6.02214076e23, -2.5e-5)]
+                         4503599627370495.5, 0.30000000000000004, 1e-300, 6.02214076e23, -2.5e-5,
+                         # one significant digit and an exponent: '%.16g' prints them without a decimal point
+                         2e-05, -2e-05, 4e-12, -4e-12, 1e-05, -1e-05, -7e-10, 9e-05, -9e-05, 3e-300, -3e-300, -1e-20,
+                         5e-07, -5e-07, 8e-100, -8e-100)]
 SPECIALS = [{'f': 'inf'}, {'f': '-inf'}, {'f': 'nan'}]
 STRS = [{'s': w} for w in ('abc', 'x_1', 'Hello', 'zeta2', 'w', 'value', 'e5', 'D2', 'T')]
 
@@ -123,7 +127,10 @@ def rnd_value(rng, special_p=0.12):
         if rng.random() < 0.6:
             return rng.choice(FLOATS)
         m = rng.choice([rng.random(), rng.uniform(-1e3, 1e3), rng.randrange(-50, 50) / 8.0, rng.uniform(-1, 1) * 10 ** rng.randrange(-12, 13),
-                        float(rng.randrange(-10 ** 6, 10 ** 6))])
+                        float(rng.randrange(-10 ** 6, 10 ** 6)),
+                        # k * 10^-n and k.d * 10^-n: exponent notation with one or two significant digits
+                        float('%se-%02d' % (rng.choice(['', '-']) + str(rng.randrange(1, 10)), rng.randrange(5, 40))),
+                        float('%s.%de-%02d' % (rng.choice(['', '-']) + str(rng.randrange(1, 10)), rng.randrange(1, 10), rng.randrange(5, 40)))])
         return F(m)
     return rng.choice(STRS)
 
@@ -247,6 +254,71 @@ def oracle_case(rng):
             'kind': 'oracle:' + '+'.join(sorted(kinds)) if kinds else 'oracle:none'}
 
 
+def ref_mark(lines, cur, anchored, a, occ):
+    """where mark_anchor is documented to land (used only to build operations that succeed)"""
+    inst = 0
+    if occ > 0:
+        for count, idx in enumerate(range(cur, len(lines))):
+            line = lines[idx]
+            if count == 0 and anchored:
+                line = line.split(a)[-1]
+            if a in line:
+                inst += 1
+                if inst == occ:
+                    return cur + count
+        return None
+    last = len(lines) - 1
+    for idx in range(last, -1, -1):
+        line = lines[idx]
+        if idx == last and anchored:
+            line = line.split(a)[0]
+        if a in line:
+            inst -= 1
+            if inst == occ:
+                return idx
+    return None
+
+
+def anchor_case(rng):
+    """anchors that occur several times in a line and in several lines, mark_anchor called repeatedly without
+    reset (forward from a mid-line anchor, backward from the end), then one write and the mirrored read"""
+    delim = rng.choice(DELIMS)
+    a = rng.choice(ANCHORS)
+    nlines = rng.randrange(4, 9)
+    lines, ntok = [], []
+    for i in range(nlines):
+        toks = [rng.choice(WORDS + INT_TOK[:5] + FLT_TOK[:6]) for _ in range(rng.randrange(1, 5))]
+        k = rng.choice([0, 0, 1, 1, 2, 2, 3])
+        for _ in range(k):
+            toks.insert(rng.randrange(0, len(toks) + 1), a if rng.random() < 0.85 else a + a)
+        lines.append(mk_line(rng, delim, toks, True))
+        ntok.append([k + 1 for k, t in enumerate(toks) if a not in t])     # fields that may be overwritten
+    if rng.random() < 0.3:
+        lines[-1] = lines[-1][:-1]
+    gops, pops = [], []
+    cur, anchored = 0, False
+    for _ in range(rng.randrange(1, 5)):
+        r = rng.random()
+        if r < 0.1:
+            op, nxt = {'k': 'reset'}, (0, False)
+        else:
+            occ = rng.choice([1, 1, 1, 1, 2, 3, -1, -1, -2])
+            row = ref_mark(lines, cur, anchored, a, occ)
+            if row is None:
+                continue
+            op, nxt = {'k': 'anchor', 'a': a, 'occ': occ}, (row, True)
+        gops.append(op)
+        pops.append(dict(op))
+        cur, anchored = nxt
+    j = rng.randrange(0, nlines)      # (every line has at least one field that is not the anchor)
+    f = rng.choice(ntok[j])
+    v = rnd_value(rng)
+    gops.append({'k': 'var', 'v': v, 'row': j - cur, 'field': f})
+    pops.append({'k': 'var', 'row': j - cur, 'field': f, 'w': v})
+    pops.append({'k': 'line', 'row': 0})
+    return {'delim': delim, 'template': lines, 'gops': gops, 'pops': pops, 'oracle': True, 'kind': 'oracle:anchors'}
+
+
 def junk_case(rng):
     """anything goes: glued tokens, missing fields and rows, odd occurrences, values that contain delimiters"""
     delim = rng.choice(DELIMS)
@@ -328,7 +400,9 @@ class C29(Spec):
     rule = ('scalar sweep: every int / float (incl. extremes, -0.0, inf, -inf, nan) / str of the pools x every delimiter '
             'set; token sweep: every atomic and glued token x delimiter; random templates of atomic fields with anchors, '
             'scalar writes, single-row / multi-row / stretched arrays (lists and numpy arrays) and mirrored reads '
-            '(oracle applies); random junk templates and out-of-range operations (correspondence only)')
+            '(oracle applies); templates whose anchor occurs several times per line and in several lines with mark_anchor '
+            'called repeatedly without reset (forward, backward), one write and the mirrored read (oracle applies); '
+            'random junk templates and out-of-range operations (correspondence only)')
     assumptions = ["Python's % formatting and float() are external: the model receives '%.1f' % v and '%.16g' % v as text "
                    "and only chooses; float tokens are compared by their text",
                    'the oracle applies to templates whose fields are single parser tokens and to written strings that '
@@ -339,19 +413,22 @@ class C29(Spec):
 
     def __init__(self):
         cfg = json.load(open(os.path.join(HERE, 'model_cfg.json')))
-        self.cfg = '(mkcfg %s %s)' % (boollit(cfg['special_floats_roundtrip']), boollit(cfg['stretch_keeps_newline']))
+        self.cfg = '(mkcfg %s %s %s)' % (boollit(cfg['special_floats_roundtrip']), boollit(cfg['stretch_keeps_newline']),
+                                        boollit(cfg['mixed_exp_leading_sign']))
 
     def gen(self, tier, rng):
         cases = sweep_cases()
-        n = 450 if tier == "quick" else 15000
+        n = 400 if tier == "quick" else 15000
         for _ in range(n):
             cases.append(oracle_case(rng))
         for _ in range(n // 2):
             cases.append(junk_case(rng))
+        for _ in range(n // 2):
+            cases.append(anchor_case(rng))
         return cases
 
     def search_gen(self, tier, rng):
-        return [oracle_case(rng) for _ in range(1200)]
+        return [oracle_case(rng) for _ in range(900)] + [anchor_case(rng) for _ in range(300)]
 
     def got_term(self, c):
         return '(v_run %s %s [%s] [%s] [%s])' % (
